@@ -281,13 +281,27 @@ def canon_javalex(r):
 
 
 # ---- stream 3: the lexer specification against javac ----
+def javac17_surrogate_quirk(src):
+    """javac 17 (not the JLS) mis-reads a unicode escape that yields a HIGH surrogate when it is followed by two backslashes
+    and a 'u': looking ahead for a low surrogate it loses the parity of the backslashes, takes the second backslash as the
+    start of a unicode escape and then reports 'illegal escape character' ("\\ud800\\\\u0041" is rejected, "\\ud800\\\\n",
+    "\\udc00\\\\u0041" and "x\\\\u0041" are read as the JLS says).  Such texts are left out of the validation of the lexer
+    specification against javac; the specification follows JLS 3.3."""
+    text = "".join(map(chr, src))
+    import re
+    for m in re.finditer(r"\\u+([0-9a-fA-F]{4})", text):
+        if 0xD800 <= int(m.group(1), 16) < 0xDC00 and text[m.end():m.end() + 2] == "\\\\":
+            return True
+    return False
+
+
 def gen_javac(rng, tier, ctx):
     batches = []
     for _ in range(6 if tier == "thorough" else 1):
         lits = []
         while len(lits) < 250:
             src = [c for c in _rand_src(rng) if 32 <= c < 127]
-            if java_lex(src) is not None:
+            if java_lex(src) is not None and not javac17_surrogate_quirk(src):
                 lits.append(src)
         batches.append(lits)
     return batches
